@@ -216,6 +216,35 @@ static void quote_api_case(const std::string& s, size_t gap) {
     vf::violation("api-roundtrip:" + sig_of((const unsigned char*)s.data(), s.size()), "serialised string does not decode to the input bytes: " + vf::printable(out, 200));
 }
 
+// a string that expands ~6x written when the buffer already holds other output (the reserve for the string is computed
+// from the current fill level): through the node API, checked by the same alignment oracle
+static vf::Counter c_q_prefix("quote-after-prefix-in-partly-filled-buffer");
+static void quote_after_prefix_case(vf::Rng& r) {
+  size_t m = r.range(0, 120), n = r.range(0, 400);
+  std::string s(n, 0);
+  unsigned dens = (unsigned)r.pick(std::vector<unsigned>{100, 100, 95, 60});
+  for (auto& c : s) c = r.below(100) < dens ? (char)(1 + r.below(7)) : 'q';
+  c_q_prefix.add();
+  vf::eval();
+  vf::witness(s);
+  vf::distinct(vf::hash_combine(vf::hash_str(s), m));
+  su::PoolDoc d;
+  d.SetArray();
+  su::PoolNode inner;
+  inner.SetArray();
+  for (size_t k = 0; k < m; k++) inner.PushBack(su::PoolNode(false), d.GetAllocator());
+  d.PushBack(std::move(inner), d.GetAllocator());
+  d.PushBack(su::PoolNode(s.data(), s.size()), d.GetAllocator());
+  WriteBuffer wb(r.coin() ? 256 : r.range(0, 600));
+  vf::note("Serialize([prefix, expanding string])");
+  SonicError e = d.Serialize(wb);
+  if (e != kErrorNone) { vf::violation("api-serialize-error", "Serialize returned " + std::to_string((int)e)); return; }
+  std::string out(wb.ToString(), wb.Size());
+  jm::RefResult rr = jm::ref_parse(out);
+  if (!rr.ok || rr.v.k != jm::JVal::Arr || rr.v.a.size() != 2 || rr.v.a[1].k != jm::JVal::Str || rr.v.a[1].s != s || rr.v.a[0].a.size() != m)
+    vf::violation("api-roundtrip:after-prefix:" + sig_of((const unsigned char*)s.data(), s.size()), "output does not decode to the input: " + vf::printable(out, 200));
+}
+
 static void audit_quote_tables() {
   for (int b = 0; b < 256; b++) {
     vf::eval();
@@ -445,6 +474,7 @@ int main(int argc, char** argv) {
                    quote_case(s, r, r.below(8) == 0);
                    if (r.below(4) == 0) quote_api_case(s, r.below(3) ? 0 : r.range(1, 70));
                  }});
+    S.push_back({"expanding_string_after_prefix", 4000, 200000, [](uint64_t, vf::Rng& r) { quote_after_prefix_case(r); }});
     // source address sweep: every length 0..200, strings ending 0..130 bytes before unmapped memory, escapes in the tail
     S.push_back({"page_end_sweep", 201, 201 * 20, [](uint64_t i, vf::Rng& r) {
                    size_t n = i % 201;
